@@ -165,9 +165,21 @@ def ab2(model):
     if n == 0:
         raise AnalysisError('anchor vanished: map_match_position no longer indexes the map')
     # range checks before indexing (abort idiom)
-    for q, mapname in (('shell.proofreader.run_proofreader_options.f', 'charmap_tot'),
-                       ('shell.genhtml.generate_html', 'charmap')):
-        g = model.func(q)
+    from .ok import sort_key_function
+    kf = sort_key_function(model)
+    outer = model.func('shell.proofreader.run_proofreader_options')
+    accmap = None
+    for n in iter_scope(outer.node):
+        if isinstance(n, ast.Return) and isinstance(n.value, ast.Tuple) and len(n.value.elts) == 4 \
+                and isinstance(n.value.elts[2], ast.Name):
+            accmap = n.value.elts[2].id
+    gh = model.func('shell.genhtml.generate_html')
+    targets = [(gh, gh.params[1])]
+    if kf is not None and accmap:
+        targets.insert(0, (kf, accmap))
+    else:
+        r.undec(outer.node, 'sort key function of the result not found')
+    for g, mapname in targets:
         ev = SymEval(model, g)
         st = State()
         Lm = Aff.atom(('len', mapname))
